@@ -23,6 +23,7 @@ mod c07 {
     pub mod mutate;
     pub mod infer;
     pub mod cycles;
+    pub mod modules;
 }
 
 use c07::ast::*;
@@ -87,8 +88,13 @@ fn panic_text(e: Box<dyn std::any::Any + Send>) -> String {
 
 /// `full`: the whole pipeline (`FileTree::compile`); otherwise parse + type check only
 fn compile(rt: &Runtime<NoCtx>, src: &str, full: bool) -> Outcome {
+    compile_tree(rt, || FileTree::test_file("c07.roto", src, 0), full)
+}
+
+/// the same for any tree of script files (packages of several modules)
+fn compile_tree(rt: &Runtime<NoCtx>, tree: impl FnOnce() -> FileTree, full: bool) -> Outcome {
     let r = catch_unwind(AssertUnwindSafe(|| {
-        let tree = FileTree::test_file("c07.roto", src, 0);
+        let tree = tree();
         let res = if full { tree.compile(rt).map(|_| ()) } else { typecheck_only(tree, rt) };
         res.map_err(|rep| (report_stage(&rep).to_string(), first_line(&rep)))
     }));
@@ -1317,6 +1323,8 @@ fn worker(args: &[String]) {
             "cyc-gen" => c07::cycles::cyc_case(&rt, &mut drv, &ranks, seed, i, true, &mut rep),
             "tcyc" => c07::cycles::tcyc_case(&rt, &mut drv, seed, i, false, &mut rep),
             "tcyc-gen" => c07::cycles::tcyc_case(&rt, &mut drv, seed, i, true, &mut rep),
+            "mods" => c07::modules::mods_case(&rt, &mut drv, seed, i, false, &mut rep),
+            "mods-gen" => c07::modules::mods_case(&rt, &mut drv, seed, i, true, &mut rep),
             "infer-gen" => c07::infer::infer_case(&rt, &mut drv, seed, i + c07::infer::REPS.len() as u64, &mut rep),
             _ => {}
         }
@@ -1481,12 +1489,17 @@ fn main() {
             let recs = env_n("C07_REC", pick(20_000, 40_000, 150_000));
             let infers = env_n("C07_INFER", pick(8_000, 30_000, 100_000));
             let cycs = env_n("C07_CYC", pick(6_000, 40_000, 60_000));
+            let modsn = env_n("C07_MODS", pick(4_000, 30_000, 60_000));
             let jobs = env_n("C07_JOBS", 4);
             let mut rep = Report::default();
             run_phase("corpus", seed, corpus_files().len() as u64, 64, 1, &mut rep);
             rep.notes.push(format!("corpus: {} witnesses replayed first", corpus_files().len()));
             // the inference model against the real checker: class representatives first
             run_phase("infer", seed, c07::infer::REPS.len() as u64, 64, 1, &mut rep);
+            // packages of several modules: what is in scope where (arena x site x kind of use x path prefix x way of use)
+            let mods_reps = c07::modules::rep_count();
+            run_phase("mods", seed, mods_reps, 800, jobs, &mut rep);
+            rep.notes.push(format!("packages of several modules: {mods_reps} representatives (site module x kind of use x way of use x path prefix; both ways against the scoping rules)"));
             // value cycles: every shape of reference cycle x every closing reference x every rank order of the names
             let cyc_reps = c07::cycles::rep_table().len() as u64;
             run_phase("cyc", seed, cyc_reps, 64, jobs, &mut rep);
@@ -1506,6 +1519,8 @@ fn main() {
             run_phase("gen", seed, recs, 1000, jobs, &mut rep);
             run_phase("decl", seed, recs, 1000, jobs, &mut rep);
             run_phase("prog", seed, progs, 250, jobs, &mut rep);
+            run_phase("mods-gen", seed, modsn, 250, jobs, &mut rep);
+            rep.notes.push(format!("packages of several modules: {modsn} generated programs distributed over random module trees, one scope-breaking edit each ({} kinds)", c07::modules::EDITS.len()));
             run_phase("infer-gen", seed, infers, 250, jobs, &mut rep);
             rep.notes.push(format!("inference model vs type checker: {} class representatives, then {infers} generated programs with {} edits each", c07::infer::REPS.len(), 3));
             rep.notes.push(format!(
@@ -1531,6 +1546,43 @@ fn main() {
             }
             rep.emit();
         }
+        Some("tc") => {
+            // `c07 tc <dir | file>`: compile a script tree from disk (pkg.roto, name.roto, name/mod.roto)
+            let rt = Runtime::new();
+            let r = catch_unwind(AssertUnwindSafe(|| match FileTree::read(&args[2]) {
+                Ok(tree) => tree.compile(&rt).map(|_| ()),
+                Err(e) => Err(e),
+            }));
+            match r {
+                Ok(Ok(())) => println!("compiled"),
+                Ok(Err(rep)) => println!("{}: {}", report_stage(&rep), first_line(&rep)),
+                Err(e) => println!("panic: {}", panic_text(e)),
+            }
+        }
+        Some("show-pkg") => {
+            // `c07 show-pkg <seed> <index> [edit]`: the generated package, its scoping request and the judge's answer
+            let seed: u64 = args[2].parse().unwrap();
+            let index: u64 = args[3].parse().unwrap();
+            let (mut pkg, mut p) = c07::modules::random_pkg(seed, index);
+            if let Some(kind) = args.get(4) {
+                match c07::modules::edit(&mut p, &pkg, kind) {
+                    Some((m, tag, detail)) => {
+                        println!("--- edit {kind} [{tag}]: {detail}");
+                        pkg = m;
+                    }
+                    None => println!("--- edit {kind}: not applicable"),
+                }
+            }
+            let r = pkg.render();
+            for (i, s) in r.srcs.iter().enumerate() {
+                println!("=== module {i} (m{}, parent {:?})\n{s}", pkg.mods[i].name, pkg.mods[i].parent);
+            }
+            let req = pkg.scope_request(&r.uses);
+            println!("{req}");
+            let mut drv = Driver::spawn().expect("lean driver");
+            println!("{}", drv.ask(&req));
+            println!("expected: {:?}", c07::modules::wanted(&pkg, &r.uses));
+        }
         Some("show") => {
             let seed: u64 = args[2].parse().unwrap();
             let index: u64 = args[3].parse().unwrap();
@@ -1554,6 +1606,12 @@ fn main() {
 /// `worker one <json> 0 0`: replay a recorded failing input
 fn replay_one(input: &Value, rep: &mut Report) {
     let rt = Runtime::new();
+    if input["pkg"].is_array() {
+        // a package of several modules (phases mods / mods-gen)
+        let mut drv = Driver::spawn().expect("lean driver");
+        c07::modules::replay(&rt, &mut drv, input, rep);
+        return;
+    }
     if let Some(src) = input["src"].as_str() {
         if input["phase"].as_str() == Some("infer") {
             // model of the inference pass against the type checker on the recorded script
